@@ -321,7 +321,7 @@ void Search::iter_search()
 
         if (is_mate(result)) break;
 
-        if (_current_depth >= _search_depth) break;
+        if (_current_depth >= std::min(_search_depth, MAX_DEPTH)) break;
 
         if (elapsed >= 3 * (_search_time / 4)) break;
     }
